@@ -21,6 +21,10 @@ def check(ctx):
     rep.floor("lookup-free UTC results in the Zinc reader", nu, 1)
     from rules import hayson as _hk
     _hk.check_nothing_dropped(ctx, rep, "encoding/zinc/encode.rs")
+    _hk.check_text_verbatim(ctx, rep)
+    from rules import units as _un1
+    _nu1, _ni1 = _un1.check(ctx, rep)
+    rep.floor("unit identifiers (numbers carry units)", _ni1, 900)
     npk = escapes.check_parsed_elements_kept(ctx, rep)
     rep.floor("stores of parsed elements in the Zinc collection readers", npk, 4)
     n1 = escapes.check_str(ctx, rep)
